@@ -6,8 +6,12 @@ CFG = {
     "coq_header": "From DS Require Import Base Base64 Sha1 Websocket.\nFrom DSR Require Import Run_C20.",
     "case_type": "c20case",
     "judge": "judge",
-    "rule": "one case = one raw-TCP GET /ws against a live HttpServer whose #[channel] handler echoes the raw upgraded "
-            "stream: the header lines sent (name, raw value bytes), then status, response headers, the bytes echoed "
+    "rule": "one case = one GET /ws against a live HttpServer whose #[channel] handler echoes the raw upgraded "
+            "stream, over plain TCP (blocking raw client) or over TLS (servers started with ConfigTls::AsBytes, "
+            "tokio-rustls client, certificate not verified; group 'tls': every key length 0..130, the no-/one-element-"
+            "wrong corner of the grid and a stride through the rest, spellings, all fixed spellings, repeated lines and "
+            "every payload scenario are repeated there, since the server's accept loop has one branch per transport): "
+            "the header lines sent (name, raw value bytes), then status, response headers, the bytes echoed "
             "after a 101 (sent in pieces, optionally the first piece pipelined with the request, then half-close and "
             "read to EOF), whether the connection still answers HTTP after a refusal, and the movement of the "
             "handler-entered counter. Groups: keys of every length 0..130 of arbitrary legal header-value bytes (twice: "
@@ -21,7 +25,9 @@ CFG = {
             "property on the observation (101 + Sec-WebSocket-Accept = base64(SHA-1(k ++ GUID)) computed in Coq + echo "
             "unmodified + handler entered once; or 4xx + not upgraded + handler not entered) and compares with the "
             "model (status, the three response fields after hyper's Connection rewriting, follow-up behaviour). "
-            "Non-trivial: at least one header line; distinct by case content.",
+            "A 101 after which the pipe is dead (no echo, no clean end of stream, handler not "
+            "entered) is a violation on either transport. Non-trivial: at least one header line; distinct by case "
+            "content (transport included).",
     "exhaustive_note": "the subset grid (every combination of absent/right/wrong-valued Connection, Upgrade, "
                        "Sec-WebSocket-Version, Sec-WebSocket-Key over the listed variants, 882 requests) and the key "
                        "lengths 0..130 (every SHA-1 padding boundary of key ++ GUID) are enumerated completely in both "
@@ -40,6 +46,8 @@ CFG = {
         "(req_close / set_connection_close)",
         "hyper's Upgraded + hyper_util TokioIo as a transparent byte pipe, tokio::spawn running the task, "
         "tokio::io::copy in the harness's echo handler (runtime behaviour: sampled, not modelled beyond identity)",
+        "rustls 0.22 / tokio-rustls 0.25 (client side of the TLS cases, and inside dropshot's TLS acceptor): "
+        "a transparent byte stream with close_notify as end of stream",
         "the OS loopback TCP stack",
     ],
     "assumptions": [
@@ -64,7 +72,8 @@ CFG = {
                 "kernel-evaluated tests. Correspondence on every run over raw TCP against a live server: the Coq "
                 "judge recomputes the digest and evaluates the property and the model on each observation. Partial: "
                 "digest equality with the sha1 crate for all keys is a differential test; the byte pipe after the "
-                "upgrade and task spawning are hyper/tokio runtime behaviour, sampled (payloads to 256 KiB).",
+                "upgrade and task spawning are hyper/tokio runtime behaviour, sampled (payloads to 256 KiB) on both "
+                "transports the server accepts connections on (plain TCP and TLS).",
         "design_ref": "DESIGN.md §6 C20",
         "note": "Coq kernel + vm_compute; hand-written model Websocket.v / Sha1.v tied by the correspondence run; "
                 "hyper's header delivery, keep-alive state machine and Connection rewriting are modelled contracts. "
